@@ -29,6 +29,7 @@ Scn(k, an, inum, cn, ulen, plen, kgOn, priv, lookup) ==
    rc |-> RBytes(k + 3000, 16), guid |-> RBytes(k + 4000, 16), k |-> k]
 
 SupportedSuites == {<<a, i>> : a \in {1, 2, 3}, i \in {1, 2, 4}}
+SetToSuite(q) == << 1 + (q % 3), <<1, 2, 4>>[1 + ((q \div 3) % 3)] >>
 
 \* ------------------------------------------------------- in-session commands
 Iv(k) == [i \in 1..16 |-> (i * 13 + k * 29) % 256]
@@ -42,7 +43,7 @@ RawCall(S, j, L) ==
             netfn |-> 10, cmd |-> 16 + (j % 3), body |-> RawBody(S.k + j, L), seq |-> j]]
 RawReact(S, j, L) ==
   [React0 EXCEPT !.datagrams = << Dg(SessPacket(S, LE32s(j), B(MsgRspBytes(129, 11, 0, 1, 0, 16 + (j % 3), 0, RawRspData(S.k + j, L))), Iv(S.k + j)),
-                                     [kind |-> "rawrsp"]) >>]
+                                     [kind |-> "rawrsp", valid |-> TRUE, code |-> 0]) >>]
 Commands(S, lens) == Flatten([j \in 1..Len(lens) |-> << RawCall(S, j, lens[j]), RawReact(S, j, lens[j]) >>])
 
 \* ------------------------------------------------------------ script pieces
@@ -215,7 +216,43 @@ LongSet ==
   { Honest("long-" \o ToString(s[1]) \o "-" \o ToString(s[2]), Scn(9900 + s[1] * 10 + s[2], s[1], s[2], 1, 7, 11, (s[1] % 2) = 0, 4, TRUE),
            [j \in 1..n |-> (j * 7 + Seed) % 41]) : s \in SupportedSuites }
 
+\* ------------------------------------------- session / connection lifecycles (C18)
+\* one connection; operations chosen pseudo-randomly among those legal in the current state
+OpAt(k, i, open) == LET r == Rnd(k, i) % 6 IN
+  IF ~open THEN (CASE r \in {0, 1, 4} -> "openOK" [] r \in {2, 5} -> "openFailPw" [] OTHER -> "openFailStatus")
+  ELSE (CASE r \in {0, 1} -> "cmd" [] r = 2 -> "cmdLost" [] r = 3 -> "closeOK" [] r = 4 -> "closeErr" [] OTHER -> "closeLost")
+CloseCall(S) == [k |-> "call", api |-> "Close", label |-> "close", target |-> "sess",
+                 exp |-> [outcome |-> "any", netfn |-> 6, cmd |-> 60, body |-> S.bmcSid]]
+CloseReact(S, j, cc) ==
+  [React0 EXCEPT !.datagrams = << Dg(SessPacket(S, LE32s(j), B(MsgRspBytes(129, 7, 0, 1, 0, 60, cc, <<>>)), Iv(S.k + j)),
+                                     [kind |-> "closersp", valid |-> TRUE, code |-> cc]) >>]
+OpSteps(S, op, j) ==
+  CASE op = "openOK" -> << NewSessionCall(S, ExpSession(S)), HonestOsr(S), HonestRakp2(S), HonestRakp4(S), ExpectSession(S) >>
+    [] op = "openFailPw" -> << NewSessionCall(S, ExpErr(S, "ErrIncorrectPassword")), HonestOsr(S), WithDg(HonestRakp2(S), R2Dg(WrongPw(S))) >>
+    [] op = "openFailStatus" -> << NewSessionCall(S, ExpErr(S, "error")), WithDg(HonestOsr(S), SetByte(OsrDg(S), 17, 1)) >>
+    [] op = "cmd" -> << RawCall(S, j, j % 13), RawReact(S, j, j % 13) >>
+    [] op = "cmdLost" -> << [RawCall(S, j, 3) EXCEPT !.exp = [outcome |-> "any", netfn |-> 10, cmd |-> 16 + (j % 3), body |-> RawBody(S.k + j, 3)]], Lost >>
+    [] op = "closeOK" -> << CloseCall(S), CloseReact(S, j, 0) >>
+    [] op = "closeErr" -> << CloseCall(S), CloseReact(S, j, 135) >>
+    [] op = "closeLost" -> << CloseCall(S), Lost >>
+RECURSIVE Life(_, _, _, _, _, _)
+Life(S, k, i, n, open, j) ==
+  IF i > n THEN << [k |-> "call", api |-> "ConnClose", label |-> "connclose"] >>
+  ELSE LET op == OpAt(k, i, open)
+           nowOpen == IF op = "openOK" THEN TRUE ELSE IF op \in {"closeOK", "closeErr", "closeLost"} THEN FALSE ELSE open
+           \* sequence numbers expected by TraceHandshake restart with each session
+           j2 == IF op = "openOK" THEN 1 ELSE IF op \in {"cmd", "cmdLost", "closeOK", "closeErr", "closeLost"} THEN j + 1 ELSE j
+       IN OpSteps(S, op, j) \o Life(S, k, i + 1, n, nowOpen, j2)
+LifecycleSet ==
+  LET n == IF Full THEN 60 ELSE 24
+      cnt == IF Full THEN 120 ELSE 32
+  IN { LET s == SetToSuite(q) IN
+       ScriptOf("life-" \o ToString(q), "lifecycle", Scn(12000 + q, s[1], s[2], 1, 5, 9, (q % 2) = 0, 4, TRUE),
+                Life(Scn(12000 + q, s[1], s[2], 1, 5, 9, (q % 2) = 0, 4, TRUE), 500 + q, 1, n, FALSE, 1), [mut |-> "none"])
+       : q \in 1..cnt }
+
 Scripts == CASE Family = "honest" -> HonestSet \cup NoneSet
+             [] Family = "lifecycle" -> LifecycleSet
              [] Family = "long" -> LongSet
              [] Family = "mutate" -> MutateSet
              [] Family = "triples" -> TripleSet
